@@ -219,9 +219,9 @@ def run(tier, seed):
     work = Work("C08")
     try:
         t_phase = [time.time()]
-        ok, blog = coq_build(["props/C08.vo", "corr/C08corr.vo", "corr/C08held.vo"])
+        ok, blog = coq_build(["props/C08.vo", "props/C08held.vo", "corr/C08corr.vo", "corr/C08held.vo"])
         t_phase.append(time.time())
-        proofs_ok, pa = proof_obligations(work, res, "C08.v", ok, blog)
+        proofs_ok, pa = proof_obligations_multi(work, res, ["C08.v", "C08held.v"], ok, blog)
         gate = m4x.gate_for(["props/C08.v", "corr/C08corr.v"])
         if gate:
             proofs_ok = False
